@@ -28,6 +28,8 @@ pub struct DynSum {
     /// the expert node has an observability callback that reads an observer and (when armed) writes a variable;
     /// a permanently observed reader of that variable logs what it saw (C07 / C08 inside that user function)
     pub cb: bool,
+    /// (with warm_deps) x0 has an older dependant, linked before the expert node, that may go away
+    pub sibling: bool,
 }
 
 const C_VAR: usize = 0;
@@ -87,6 +89,8 @@ struct W {
     kept_once: bool,
     reconcile_node: Incr<SV>,
     keep_reconcile_obs: Option<Observer<SV>>,
+    /// observer on a map over x0 that was attached to x0 before the expert node was (an older dependant of a shared child)
+    sibling_obs: Option<Observer<SV>>,
 }
 
 impl W {
@@ -203,7 +207,7 @@ fn reconcile(sh: &Rc<Sh>, expert: &WeakNode<SV>, children: &[Incr<SV>]) {
 
 impl Scenario for DynSum {
     fn name(&self) -> String {
-        format!("C14/dynamic_sum{}{}{}", if self.with_bind { "_with_bind_children" } else { "" }, if self.warm { "_warm" } else { "" }, if self.warm_deps { "_deps" } else { "" }) + if self.cb { "_observability_callback" } else { "" } + if self.outside { "_edited_between_stabilises" } else { "" }
+        format!("C14/dynamic_sum{}{}{}", if self.with_bind { "_with_bind_children" } else { "" }, if self.warm { "_warm" } else { "" }, if self.warm_deps { "_deps" } else { "" }) + if self.cb { "_observability_callback" } else { "" } + if self.sibling { "_older_sibling" } else { "" } + if self.outside { "_edited_between_stabilises" } else { "" }
     }
     fn run(&self) {
         let state = IncrState::new();
@@ -315,7 +319,7 @@ impl Scenario for DynSum {
         };
         expert.add_dependency(&reconcile_node);
         let top = expert.watch().map(|x| app(5, &[x.clone()]));
-        let mut w = ManuallyDrop::new(W { state, xs, selb, ctl, children, expert, top, obs: None, obs_in_use: false, keep_child_obs: None, sh, dirty: false, invalidated: false, with_bind, kept_once: false, reconcile_node: reconcile_node.clone(), keep_reconcile_obs: None });
+        let mut w = ManuallyDrop::new(W { state, xs, selb, ctl, children, expert, top, obs: None, obs_in_use: false, keep_child_obs: None, sh, dirty: false, invalidated: false, with_bind, kept_once: false, reconcile_node: reconcile_node.clone(), keep_reconcile_obs: None, sibling_obs: None });
         let warm = self.warm;
         let r = catch(|| {
             w.sh.add_first.set(choose(2) == 1);
@@ -337,6 +341,11 @@ impl Scenario for DynSum {
                 w.sh.plan.borrow_mut()[C_VAR] = 1;
             }
             if self.warm_deps {
+                // an older dependant of x0: it is linked to x0 before the expert node is, and may go away later
+                if self.sibling {
+                    let sib = w.xs[0].0.map(|_| SV::lit(0));
+                    w.sibling_obs = Some(sib.observe());
+                }
                 w.sh.plan.borrow_mut()[C_VAR] = 1;
                 w.sh.plan.borrow_mut()[C_MAP] = 1;
                 w.keep_reconcile_obs = Some(w.reconcile_node.observe());
@@ -372,6 +381,7 @@ impl Scenario for DynSum {
                     AskInvalidate,
                     StaleOutside,
                     ReconcileOutside,
+                    DropSibling,
                     ArmCbWrite,
                     Stabilise,
                 }
@@ -434,6 +444,9 @@ impl Scenario for DynSum {
                     // the dependencies are brought in line with the plan from top level, between two stabilises
                     acts.push(A::ReconcileOutside);
                 }
+                if w.sibling_obs.is_some() {
+                    acts.push(A::DropSibling);
+                }
                 if w.dirty {
                     acts.push(A::Stabilise);
                 }
@@ -489,6 +502,11 @@ impl Scenario for DynSum {
                         // a child shared with another consumer stays necessary without the expert node
                         w.keep_child_obs = Some(w.children[C_MAP].observe());
                         w.dirty = true;
+                    }
+                    A::DropSibling => {
+                        w.sibling_obs = None;
+                        w.dirty = true;
+                        cover("older-dependant-of-a-shared-child-went-away");
                     }
                     A::ArmCbWrite => {
                         w.sh.cb_write_armed.set(true);
